@@ -83,6 +83,8 @@ func ruleC10(c *Check) {
 	c.keyGrammar("C10.6", map[string]bool{"0x09": true, "0x10": true, "0x11": true, "0x12": true})
 	c.newBatchDequeue("C10")
 	c.contextDeleters("C10")
+	// the batch of a running context is issued or skipped — not aborted by the pricing of a provider that would be filtered out
+	c.filterRules("C10.9")
 }
 
 func ruleC11(c *Check) {
@@ -122,6 +124,7 @@ func ruleC12(c *Check) {
 	c.newBatchRules("C12", map[string]bool{"running-no-successor": true, "issue-without-expiry": true})
 	c.startRules("C12")
 	c.constructorRules("C12.7", map[string]bool{"callbacks": true})
+	c.completeCallers("C12.8")
 }
 
 func ruleC16(c *Check) {
@@ -535,4 +538,68 @@ func (c *Check) cleanRules(rule string) {
 		c.req(ok, rule, unitConstruct(clean, "per-key"), pa.RetPos, "each iteration deletes the request and the response stored under the scanned request key's id"+condStr(!ok, ": request key "+shortTerm(k13)+", response key "+shortTerm(k16)))
 	}
 	c.req(n >= 1, rule, unitConstruct(clean, "iterations"), clean.Body.Pos(), fmt.Sprintf("%d iterating paths", n))
+}
+
+// completeCallers (C12.8): a batch is completed — and the owning module called back — in two situations only: the response
+// that answers its last open request, and the end of its expiry block. The function that marks a batch completed and
+// dispatches the callback is therefore called from the respond function and from the expired-batch handler (or from helpers
+// that only those two reach) and from nowhere else: routing the pause-for-funds helper through it calls the module back a
+// second time for a batch that was completed long ago.
+func (c *Check) completeCallers(rule string) {
+	cf := c.completeFn()
+	u := c.feeUnits(rule)
+	if cf == nil || !u.complete() {
+		if cf == nil {
+			c.undecided(rule, "complete-function", token.NoPos, "the function that completes a batch was not found")
+		}
+		return
+	}
+	callersOf := func(t *Func) []*Func {
+		var out []*Func
+		seen := map[*Func]bool{}
+		for _, g := range c.P.Funcs {
+			if g.Body == nil || !g.isHandWritten() || seen[g] {
+				continue
+			}
+			for _, pa := range c.P.PathsOf(g) {
+				hit := false
+				for _, ev := range pa.Events {
+					if ev.Kind == EvCall && ev.CI.fn == t {
+						hit = true
+					}
+				}
+				if hit && !seen[g] {
+					seen[g] = true
+					out = append(out, g)
+				}
+			}
+		}
+		return out
+	}
+	var allowed func(g *Func, depth int) bool
+	allowed = func(g *Func, depth int) bool {
+		if g == u.RF || g == u.EB.Closure {
+			return true
+		}
+		if depth >= 3 {
+			return false
+		}
+		cs := callersOf(g)
+		if len(cs) == 0 {
+			return false
+		}
+		for _, h := range cs {
+			if !allowed(h, depth+1) {
+				return false
+			}
+		}
+		return true
+	}
+	n := 0
+	for _, g := range callersOf(cf) {
+		n++
+		c.req(allowed(g, 0), rule, unitConstruct(g, "completes-a-batch"), g.Body.Pos(),
+			"the batch-completing function (state = completed, module callback) is called only from the respond function and the expired-batch handler (or helpers only they reach)")
+	}
+	c.req(n >= 2, rule, "complete-callers", token.NoPos, fmt.Sprintf("%d functions call the batch-completing function", n))
 }
